@@ -10,6 +10,10 @@
         set it, and whose key path is path-matched by the request path
   * `foreign_domain_not_stored` : a Set-Cookie whose Domain is not domain-matched by the responding host leaves the
         jar unchanged; `stored_only_from_matching_host`: so after any history every jar entry was set by a matching host
+  * `jar_is_last_write`, `jar_keys_and_names_unique`, `attached_is_latest_unexpired` : the jar is a function of the whole
+        history (last accepted Set-Cookie per key and name wins; expired = gone) and only that is ever attached
+  * `attached_only_if_spec_match_raw`, `max_age_nonpositive_is_expired`, `no_expiry_attribute_not_expired`,
+        `valueless_domain_path_ignored` : the same with the clock, `cookies.is_expired` and the attribute lookup inside the model
   * `expired_removed` : after an accepted expired Set-Cookie there is no cookie of that name under its key, and no
         empty dict is left behind; `expired_removed_history`: the same at the end of any history;
         `jar_no_empty_dicts`: the jar never holds an empty dict
@@ -125,12 +129,97 @@ theorem expired_removed_history (evs : List Event) (host : Bytes) (port : Nat) (
 theorem jar_no_empty_dicts (evs : List Event) (k : JKey) (d : Dict) (h : (k, d) ∈ runJar [] evs) : d ≠ [] :=
   run_nonempty evs (by simp) k d h
 
+/-! ### the jar as a function of the whole history -/
+
+/-- **Last write wins.** After any history the slot `(key, name)` of the jar holds exactly what the last accepted
+    Set-Cookie for that key and name says: its value, or nothing if it was expired (or there was none). -/
+theorem jar_is_last_write (evs : List Event) (k : JKey) (n : Bytes) :
+    jarGet (runJar [] evs) k n = lastWrite evs k n := by
+  rw [jarGet_run]; rfl
+
+/-- After any history the jar's keys are pairwise different and so are the cookie names under each key: the
+    association lists of the model are Python dicts. -/
+theorem jar_keys_and_names_unique (evs : List Event) :
+    ((runJar [] evs).map (·.1)).Nodup ∧ ∀ k d, (k, d) ∈ runJar [] evs → (d.map (·.1)).Nodup :=
+  run_wf evs ⟨by simp, by simp⟩
+
+/-- **Attachment, exactly.** A cookie `(n, v)` put on a request after any history is, for some jar key matching
+    the request (domain, port, path), the value of the LAST accepted Set-Cookie for that key and name — so a cookie
+    that was expired (or overwritten) later in the history is never sent. -/
+theorem attached_is_latest_unexpired (evs : List Event) (flt : Bool) (host : Bytes) (port : Nat)
+    (path n v : Bytes) (h : (n, v) ∈ attached (runJar [] evs) flt host port path) :
+    ∃ k : JKey, implDomainMatch host k.domain = true ∧ port = k.port ∧ implPathMatch path k.path = true ∧
+      lastWrite evs k n = some v := by
+  unfold attached at h
+  cases flt with
+  | false => simp at h
+  | true =>
+    simp only [if_true, List.mem_flatMap] at h
+    obtain ⟨⟨k, d⟩, hkd, hm⟩ := h
+    split at hm
+    · rename_i hcond
+      simp only [Bool.and_eq_true, decide_eq_true_eq] at hcond
+      obtain ⟨⟨hdom, hport⟩, hpath⟩ := hcond
+      have hwf := jar_keys_and_names_unique evs
+      refine ⟨k, hdom, hport, hpath, ?_⟩
+      rw [← jar_is_last_write]
+      unfold jarGet
+      rw [jarLookup_of_mem_nodup hwf.1 hkd]
+      exact dictGet_of_mem_nodup (hwf.2 k d hkd) hm
+    · simp at hm
+
+/-! ### with the clock and the attribute parsing inside the model -/
+
+/-- `attached_only_if_spec_match` for histories of raw Set-Cookies processed at arbitrary clock readings: the
+    unexpired-ness of the cookie is the transcribed `cookies.is_expired` at the time of its response. -/
+theorem attached_only_if_spec_match_raw (ip : IPNotion) (evs : List RawEvent) (flt : Bool) (host : Bytes)
+    (port : Nat) (path n v : Bytes) (h : (n, v) ∈ attached (runRaw [] evs) flt host port path) :
+    flt = true ∧
+    ∃ now rhost rport cs c, RawEvent.resp now rhost rport cs ∈ evs ∧ c ∈ cs ∧ c.name = n ∧ c.value = v ∧
+      isExpired now c.attrs c.dateTs = false ∧ rport = port ∧
+      domainMatch6265 ip.isIP host (ckey (c.toCookie now) rhost rport).domain = true ∧
+      domainMatch6265 ip.isIP rhost (ckey (c.toCookie now) rhost rport).domain = true ∧
+      pathMatch6265 (uriPath path) (ckey (c.toCookie now) rhost rport).path = true := by
+  obtain ⟨hf, rhost, rport, cs, c, hev, hc, h1, h2, h3, h4, h5, h6, h7⟩ :=
+    attached_only_if_spec_match ip (evs.map RawEvent.toEvent) flt host port path n v h
+  refine ⟨hf, ?_⟩
+  obtain ⟨rev, hrev, hre⟩ := List.mem_map.mp hev
+  cases rev with
+  | req f h' p' pa => simp [RawEvent.toEvent] at hre
+  | resp now rh rp rcs =>
+    simp only [RawEvent.toEvent, Event.resp.injEq] at hre
+    obtain ⟨e1, e2, e3⟩ := hre
+    subst e1; subst e2; subst e3
+    obtain ⟨rc, hrc, hrce⟩ := List.mem_map.mp hc
+    subst hrce
+    exact ⟨now, rh, rp, rcs, rc, hrev, hrc, h1, h2, h3, h4, h5, h6, h7⟩
+
+/-- A Max-Age that `int()` accepts and that is ≤ 0 makes the cookie expired at every clock reading, whatever the
+    Expires attribute says (RFC 6265 §4.1.2.2: Max-Age has precedence). -/
+theorem max_age_nonpositive_is_expired (now : Int) (attrs : List (Bytes × Option Bytes)) (dateTs : Option Int)
+    (v : Bytes) (m : Int) (h1 : attrGet kMaxAge attrs = some (some v)) (h2 : pyInt v = some m) (h3 : m ≤ 0) :
+    isExpired now attrs dateTs = true := by
+  simp only [isExpired, expirationTs, h1, h2, decide_eq_true_eq]
+  omega
+
+/-- without a usable Max-Age and without an Expires attribute a cookie is never expired -/
+theorem no_expiry_attribute_not_expired (now : Int) (attrs : List (Bytes × Option Bytes)) (dateTs : Option Int)
+    (h1 : attrGet kMaxAge attrs = none) (h2 : attrGet kExpires attrs = none) :
+    isExpired now attrs dateTs = false := by
+  simp [isExpired, expirationTs, h1, h2]
+
+/-- a Domain / Path attribute without a value is ignored: the cookie is host-only / has path "/" -/
+theorem valueless_domain_path_ignored (c : Cookie) (host : Bytes) (port : Nat) :
+    (attrGet kDomain c.attrs = some none → (ckey c host port).domain = host) ∧
+    (attrGet kPath c.attrs = some none → (ckey c host port).path = [slash]) := by
+  constructor <;> intro h <;> simp [ckey, h]
+
 /-! ### non-vacuity and regression examples -/
 
 private def s (x : String) : Bytes := x.toUTF8.toList
 
 private def ck (n v : String) (attrs : List (String × String)) (e : Bool) : Cookie :=
-  { name := s n, value := s v, attrs := attrs.map (fun p => (s p.1, s p.2)), expired := e }
+  { name := s n, value := s v, attrs := attrs.map (fun p => (s p.1, some (s p.2))), expired := e }
 
 private def hist : List Event :=
   [ .resp (s "a.example.com") 80 [ck "sid" "1" [("Domain", ".example.com"), ("Path", "/foo")] false],
@@ -159,6 +248,20 @@ example : implDomainMatch (s "x.example.com.evil.org") (s ".example.com") = fals
     implDomainMatch (s "example.com") (s ".example.com") = true := by decide +kernel
 -- an IP host never suffix-matches
 example : domainMatch6265 stdIP (s "1.2.3.4") (s ".3.4") = false ∧ implDomainMatch (s "1.2.3.4") (s ".3.4") = false := by decide +kernel
+-- last write wins: re-set, then expired
+example : lastWrite hist ⟨s ".example.com", 80, s "/foo"⟩ (s "sid") = some (s "1") := by decide +kernel
+example : lastWrite (hist ++ [.resp (s "a.example.com") 80
+    [ck "sid" "" [("Domain", ".example.com"), ("Path", "/foo")] true]]) ⟨s ".example.com", 80, s "/foo"⟩ (s "sid") = none := by
+  decide +kernel
+-- the transcribed expiry: Max-Age beats Expires, int() grammar, valueless attributes
+private def at' (l : List (String × Option String)) : List (Bytes × Option Bytes) := l.map (fun p => (s p.1, p.2.map s))
+example : isExpired 1000 (at' [("Expires", some "x"), ("Max-Age", some "0")]) (some 5000) = true := by decide +kernel
+example : isExpired 1000 (at' [("Max-Age", some "1_0")]) none = false ∧ pyInt (s "1_0") = some 10 := by decide +kernel
+example : isExpired 1000 (at' [("Max-Age", none), ("expires", some "x")]) (some 999) = true := by decide +kernel
+example : isExpired 1000 (at' [("Max-Age", some "abc")]) none = false ∧ pyInt (s "abc") = none ∧ pyInt (s "1__0") = none ∧
+    pyInt (s "-5") = some (-5) ∧ pyInt (s " +7 ") = some 7 := by decide +kernel
+example : (ckey { name := s "a", value := s "b", attrs := at' [("Domain", none)], expired := false } (s "h.example") 80).domain
+    = s "h.example" := by decide +kernel
 -- the laws of `IPNotion` are satisfiable
 example : IPNotion := stdIPNotion
 
